@@ -48,6 +48,8 @@ struct Engine
     void begin(const char* op, const std::string& args, const char* pre = "element")
     {
         cur = op;
+        cnt_copies_at_begin = Cnt8::copies();
+        cnt_copy_expect = 0;
         set_ctx(case_no, step, op, pre, "C12,C02,C06,C07", args.c_str());
         ++op_count[op];
         const std::string line = std::string(op) + "(" + args + ")";
@@ -56,6 +58,10 @@ struct Engine
         if (out().verbose) emit(J().kv("t", "op").kv("case", case_no).kv("step", step).kv("op", line).str());
     }
     void viol(const char* props, const char* kind, const std::string& d) { violation(props, kind, d, cur.c_str(), "element"); }
+    // objects of the type with user-provided copy / trivial move operations that the running operation has to copy
+    uint64_t cnt_copies_at_begin = 0;
+    size_t cnt_copy_expect = 0;
+    static size_t cnt_objects(const MElem& e) { return objects_of_type(Cfg::fields(), e.f, "Cnt8"); }
 
     static size_t tracked_objects(const MElem& e)
     {
@@ -78,7 +84,15 @@ struct Engine
 
     void check_element(int i)
     {
-        if (!pool[i] || pm[i].moved_from) return;
+        if (!pool[i]) return;
+        if (pm[i].moved_from)
+        {
+            // the contents of a moved-from element are unspecified, its allocator is not: moving an allocator leaves it equal
+            // to what it was, and swap exchanges the allocators of moved-from elements like those of any others
+            const int arena = std::as_const(*pool[i]).get_allocator().get_arena();
+            if (arena != pm[i].arena) viol("C08,C12", "allocator_identity", fmt("moved-from e%d: get_allocator() is arena %d, expected %d", i, arena, pm[i].arena));
+            return;
+        }
         ++elements_checked;
         E& e = *pool[i];
         const E& ce = e;
@@ -145,6 +159,9 @@ struct Engine
 
     void check_all()
     {
+        if (cnt_copy_expect != 0 && Cnt8::copies() - cnt_copies_at_begin < cnt_copy_expect)
+            viol("C12,C06", "copy_bypasses_copy_operations", fmt("the operation had to copy %zu objects of a type with user-provided copy / trivial move operations, its copy constructor / copy assignment ran %" PRIu64 " times", cnt_copy_expect, Cnt8::copies() - cnt_copies_at_begin));
+        cnt_copy_expect = 0;
         if (out().viol_in_case) return;
         ledger().check_all_canaries();
         if (!Mon::check(*v, m, cur.c_str(), "element", "v")) return;
@@ -209,6 +226,7 @@ struct Engine
         static const char* names[] = {"E(lvalue reference)", "E(lvalue reference, alloc)", "E(const_reference)", "E(const_reference, alloc)", "E(rvalue reference)", "E(rvalue reference, alloc)"};
         begin("construct_from_reference", fmt("e%d,form=%s,v[%d],arena=%d", d, names[form], idx, arena));
         Vec& vec = *v;
+        if (form < 4) cnt_copy_expect = cnt_objects(m.e[static_cast<size_t>(idx)]);
         const uint64_t moves_before = registry().move_constructed, copies_before = registry().copy_constructed;
         const uint64_t ctm_before = CopyTrivMove8::move_constructions;
         const auto ui = static_cast<size_t>(idx);
@@ -268,6 +286,7 @@ struct Engine
         const int arena = rng.chance(1, 2) ? pm[s].arena : pick_arena();
         static const char* names[] = {"E(const E&)", "E(const E&, alloc)", "E(E&&)", "E(E&&, alloc)"};
         begin("construct_from_element", fmt("e%d,form=%s,e%d,arena=%d", d, names[form], s, arena));
+        if (form < 2) cnt_copy_expect = cnt_objects(pm[s].e);
         const MEl src = pm[s];
         const uint64_t allocs = ledger().alloc_events;
         if constexpr (Cfg::ALL_COPYABLE)
@@ -329,6 +348,7 @@ struct Engine
         begin("assign_element", fmt("e%d,form=%s,e%d", d, names[form], s));
         const MEl src = pm[s];
         MEl& dst = pm[d];
+        if (form == 0 && d != s) cnt_copy_expect = cnt_objects(src.e);
         if (!dst.moved_from && d != s)
         {
             bool differs = false;
@@ -394,6 +414,7 @@ struct Engine
         if (!Cfg::ALL_COPY_ASSIGNABLE) form = 2;
         static const char* names[] = {"e = lvalue reference", "e = const_reference", "e = rvalue reference"};
         begin("assign_reference_to_element", fmt("e%d,form=%s,v[%zu]", d, names[form], idx));
+        if (form < 2) cnt_copy_expect = cnt_objects(m.e[idx]);
         Vec& vec = *v;
         if constexpr (Cfg::ALL_COPY_ASSIGNABLE)
         {
@@ -429,6 +450,7 @@ struct Engine
         if (!Cfg::ALL_COPY_ASSIGNABLE) form = 1;
         static const char* names[] = {"reference = const E&", "reference = E&&"};
         begin("assign_element_to_reference", fmt("v[%zu],form=%s,e%d", idx, names[form], s));
+        if (form == 0) cnt_copy_expect = cnt_objects(pm[s].e);
         Vec& vec = *v;
         if constexpr (Cfg::ALL_COPY_ASSIGNABLE)
         {
